@@ -1230,8 +1230,14 @@ impl store::Cob for Patch {
         concurrent: I,
         repo: &R,
     ) -> Result<(), Error> {
-        debug_assert!(!self.timeline.contains(&op.id));
-        self.timeline.push(op.id);
+        // An operation is applied atomically: its actions are applied to a copy of the
+        // state, which replaces the current state only if all of them succeed. Otherwise,
+        // a rejected operation would leave its timeline entry and the effects of its
+        // earlier actions behind.
+        let mut patch = self.clone();
+
+        debug_assert!(!patch.timeline.contains(&op.id));
+        patch.timeline.push(op.id);
 
         let doc = op.identity_doc(repo)?.ok_or(Error::MissingIdentity)?;
         let concurrent = concurrent.into_iter().collect::<Vec<_>>();
@@ -1239,7 +1245,7 @@ impl store::Cob for Patch {
         for action in op.actions {
             log::trace!(target: "patch", "Applying {} {action:?}", op.id);
 
-            if let Err(e) = self.op_action(
+            if let Err(e) = patch.op_action(
                 action,
                 op.id,
                 op.author,
@@ -1252,6 +1258,8 @@ impl store::Cob for Patch {
                 return Err(e);
             }
         }
+        *self = patch;
+
         Ok(())
     }
 }
